@@ -8,8 +8,6 @@ pub fn from_str_native(mut src: &str) -> Result<(Self, usize), ParseError>
         // `4 * digits` inside usize
         ascii_text(src@),
         src@.len() <= 0x0fff_ffff_ffff_ffff,
-        // KNOWN DEFECT REGIONS excluded (lib/fio_parse_stubs.rs): an inner '+', a scale within 4*len of isize::MIN
-        plus_ok(src@), scale_ok(src@),
     ensures
         // C08: an accepted text reads, under the documented grammar, as sign/prefix/digits/point/digits/scale with
         // precision = number of written digits (4 bits per digit of a 0x literal, '_' not counted) and
@@ -68,7 +66,6 @@ pub fn from_str_native(mut src: &str) -> Result<(Self, usize), ParseError>
             }
             if scale_pos is Some {
                 assert(marker_ok(B as int, hexflag, at(s1, scale_pos.unwrap() as int)));
-                assert(any_marker(at(s1, scale_pos.unwrap() as int)));
             }
         } @*/
         // parse scale and remove the scale part from the str
@@ -91,6 +88,12 @@ pub fn from_str_native(mut src: &str) -> Result<(Self, usize), ParseError>
             (0, false)
         };
 
+        // only the sign in front (already removed) and the sign of the scale are allowed, the integer parser
+        // would accept another `+` in front of the integral and of the fractional part
+        if src.contains('+') {
+            return Err(ParseError::InvalidDigit);
+        }
+
         /*@ let ghost s2 = src@; @*/
         /*@ let ghost has_scale = scale_pos is Some; @*/
         /*@ let ghost gpos: int = if has_scale { scale_pos.unwrap() as int } else { s1.len() as int }; @*/
@@ -101,16 +104,13 @@ pub fn from_str_native(mut src: &str) -> Result<(Self, usize), ParseError>
             if has_scale {
                 lemma_scale_split(s1, gpos);
                 assert(isize_text(gstext) == Some(scale as int));
-                lemma_scale_ok(s1, gpos + 1, scale as int);
                 // the 0x prefix survives the removal of the scale part (its two characters are not scale markers)
                 if has_prefix { assert(gpos >= 2); assert(at(s2, 0) == at(s1, 0) && at(s2, 1) == at(s1, 1)); }
-                if gpos > 0 { assert(at(s2, 0) == at(s1, 0)); }
             } else {
                 lemma_no_scale(s1);
             }
             assert(s1 == s2 + gtail);
-            assert(plus_ok(s2));
-            assert(s2.len() > 0 ==> at(s2, 0) != '+');
+            assert(!has_hit(s2, '+'));       // `if src.contains('+') { return Err(..) }`
             assert(has_prefix ==> s2.len() >= 2 && at(s2, 0) == '0' && (at(s2, 1) == 'x' || at(s2, 1) == 'X'));
         } @*/
         // parse the body of the float number
@@ -157,7 +157,7 @@ pub fn from_str_native(mut src: &str) -> Result<(Self, usize), ParseError>
                     /*@ proof {
                         lemma_count_le(int_str@, '_');
                         gi = int_str@; ghex = false; pre = sub(s2, 0, 0);
-                        lemma_head_no_plus(s2, dot as int);
+                        lemma_part_no_plus(s2, 0, dot as int);
                         lemma_body_dot(s2, 0, dot as int);
                     } @*/
                     let digits = int_str.len() - int_str.matches('_').count();
@@ -219,7 +219,9 @@ pub fn from_str_native(mut src: &str) -> Result<(Self, usize), ParseError>
             if fract.is_zero() {
                 int
             } else {
-                exponent -= fract_digits as isize;
+                exponent = exponent
+                    .checked_sub(fract_digits as isize)
+                    .ok_or(ParseError::InvalidDigit)?; // the scale is too small for an isize exponent
                 int * UBig::from_word(B).pow(fract_digits) + fract
             }
         } else {
@@ -258,7 +260,7 @@ pub fn from_str_native(mut src: &str) -> Result<(Self, usize), ParseError>
                 /*@ proof {
                     lemma_count_le(src@, '_');
                     gi = src@; ghex = false; gf = Seq::<char>::empty(); gdot = false; pre = sub(s2, 0, 0);
-                    lemma_head_no_plus(s2, 0);
+                    lemma_whole_no_plus(s2);
                     lemma_body_nodot(s2, 0);
                     lemma_concat_empty(gi);
                     lemma_same_value_refl(B as int, dval(gi, B as int), scale as int);
